@@ -364,6 +364,13 @@ class C07(Check):
                 last = "J%d" % (nj - 1)
                 (pmin_l, pnom_l, e_l), D_l, el_l = conf[last]
                 new_pnom = pnom_l + rng.choice([7.0, 13.0])
+                # put the junction where delivery is partial (pressure about 60 % of the way from Pmin to Preq), with a demand
+                jl = wn.get_node(last)
+                el_l = H * 0.7 - (pmin_l + 0.6 * (pnom_l - pmin_l))
+                jl.elevation = el_l
+                if D_l == 0.0:
+                    D_l = 0.004
+                    jl.demand_timeseries_list[0].base_value = D_l
                 LS = wntr.network.LinkStatus
                 pipe = wn.get_link("P%d" % (nj - 1))
                 wn.add_control("iso_close", Control(SimTimeCondition(wn, "=", 3600), ControlAction(pipe, "status", LS.Closed)))
